@@ -80,6 +80,43 @@ DESCR = {
     'C17-4': ('write_state_byte_array_loop loads a word instead of a byte', 'the array written is the last datum of the state section'),
     'C18-3': ('unary minus folded without word-size wrap', 'INT_MIN literal consumed by a compile-time comparison or division'),
     'C18-4': ('--lint tolerates a closing return after an endless loop and then compiles it', 'lint on, block ending in return after while(true)'),
+    # ---- round 3 (sub-agents confined to a compiler area, free choice of property)
+    'C13-A1-1': ('byte escape reader returns an int that is tested for truthiness', 'the escape \\x00 (or \\0) in a string literal'),
+    'C12-A1-2': ('integer-literal regexes rebuilt by a helper with `?` for `*`', 'a literal with two or more digit separators'),
+    'C10-A1-3': ('scanner indexes source.lines directly, bypassing the empty-source guard', 'a source with zero lines (empty file)'),
+    'C05-A2-1': ('preemptive flag of a code block computed from control-block children only', 'a preempt block nested in a plain { } block or try body of a defeat function'),
+    'C06-A2-2': ('left operand of ?? validated by an incomplete tree walk instead of being re-parsed', 'you-call or nested ?? below a cast/index/.length in the left operand'),
+    'C06-A2-3': ('undo/stop handler parsed in the try-body context', 'flavour-specific code inside a handler'),
+    'C07-A3-1': ('overload resolution memoised on (name, argument types)', 'two calls with the same argument types of which only one is a shrinkable literal'),
+    'C14-A3-2': ('unary +/- folded without the environment, hence without the word-size wrap', 'negation of INT_MIN (or of a wrapped constant) consumed by comparison or division'),
+    'C10-A3-3': ('ArrayLiteral.cast returns self when already type-locked with the same element type', 'a cast literal used again where a different access mode is required'),
+    'C16-A4-1': ('exit modes of try ignore the handler when the body shows no DEFEAT', 'try body defeating only through a call in an expression, handler falls through'),
+    'C07-A4-2': ('typechecked declaration popped and re-inserted in env.funcs', 'a call that needs a coercion and fits several overloads, made after the first one was checked'),
+    'C09-A4-3': ('right operand of op= coerced to the target type', 'byte target with an int right operand outside 0..255'),
+    'C01-A5-1': ('volatile-operand snapshot only for State accesses', 'left operand is a byte/bool global or a register-held value and the right operand reassigns it'),
+    'C05-A5-2': ('IntToByte keeps the full-word fast value', 'computed int `is byte` used as index/length with a value outside 0..255'),
+    'C09-A5-3': ('load in front of the 0/1 normalisation of IntToBool removed', 'int-to-bool cast of a value not already in the output register'),
+    'C05-A6-1': ('return protection becomes sticky between defeat functions', 'a non-preemptive defeat function generated after a preemptive one, returning under try'),
+    'C01-A6-2': ('entry array length computed from the scalars seen so far', 'a scalar parameter after the array parameter of @is_you'),
+    'C01-A6-3': ('already-emitted globals are looked up before locals', 'a local or parameter shadowing a global that was used earlier'),
+    'C13-A7-1': ('constant array literals de-duplicated by their values only', 'two constant arrays with equal values and different element types in one program'),
+    'C01-A7-2': ('source of src[idx] kept only when the index contains a call', 'string element of a string array indexed by a non-trivial call-free expression'),
+    'C01-A7-3': ('a[i] op= e evaluates e before reading a[i]', 'e modifies a[i]'),
+    'C02-A8-1': ('right operand of ?? parked on the frame only when the left operand is unsafe', 'computed right operand with a literal/variable left operand'),
+    'C02-A8-2': ('inevitability test of preempt emitted only in defeat functions', 'preempt block in a you-function try body'),
+    'C03-A8-3': ('try/stop without visible DEFEAT compiled as its bare body', 'defeat reached through a value-returning defeat call inside an expression'),
+    'C02-A9-1': ('write_int_pos trampoline (with its halt guard) removed', 'write(int) of a non-negative number inside an undone/stopped try'),
+    'C03-A9-2': ('zero-length pre-check of write_const_byte_array removed', 'an empty const byte array written'),
+    'C18-A9-3': ('write loops compare addresses with signed hlt/hge (end pointer instead of counting a length down)', 'mutable global / argv byte array written while the stack is near its legal maximum, so the data lie above 2^(n-1)'),
+    'C04-A10-1': ('DynamicValue.maps becomes one list shared by every instance', 'two deferred guard constants in one compilation (literal array live while a dynamic one is allocated)'),
+    'C13-A10-2': ('_escape_bytes defaults to the double quote for character immediates too', "the characters ' and \" as character constants"),
+    'C01-A10-3': ('ConcreteArrayType equality ignores R vs RW', 'a function specialised for a const view and for a mutable array of the same section, with overloads distinguishing them'),
+    'C04-A11-1': ('Tracker.update returns early when the largest checkpoint already covers the depth', 'a deep temporary before a dynamic allocation, smaller checkpoints live'),
+    'C08-A11-2': ('arrays released before a scalar tail call is evaluated', 'return f(g(local_array), ...)'),
+    'C04-A11-3': ('create_new_stack_array updates the checkpoint before the frame size', 'literal array as deepest allocation, stack exactly full'),
+    'C14-A12-1': ('driver passes the word size in bits to the typechecker', 'compiled through `python -m hidc`; a folded constant that wraps at the real word size'),
+    'C10-A12-2': ('error renderer unpacks the context unconditionally', 'a diagnostic without source position (missing @is_you, file errors)'),
+    'C13-A12-3': ('SourceCode.from_file expands tabs', 'a raw TAB inside a string or character literal of a source file'),
 }
 
 # seeded changes that the target check did NOT catch when first run, and what was added to the check afterwards
@@ -115,6 +152,24 @@ STRENGTHENED = {
     'C17-3': 'C17 gained writes inside tries that are undone or stopped (C02 gained string/int writes as try-body atoms)',
     'C18-3': 'not caught by C18 (a 16-bit run that wraps is outside clause (c) by definition); caught by C14',
     'C18-4': 'C18 lint clause now also runs every family-B body printed without statement markers',
+    # ---- round 3
+    'C06-A2-2': 'C06 operand formers gained a cast wrapper `((E is byte) is int)` around the flavoured operand',
+    'C10-A3-3': 'C10 gained array literals with explicit casts in every role (mutable/const declaration, mutable/const argument, .length)',
+    'C09-A4-3': 'C09 gained compound assignment on byte locals, byte array elements and byte globals with 13 (op, int constant) pairs over the operand grid',
+    'C01-A5-1': 'C01 family S gained byte/bool operands whose right neighbour (setb) reassigns the byte and bool globals',
+    'C09-A5-3': 'C09 gained the casts with the operand held in a mutable global (value not yet in the output register)',
+    'C05-A6-1': 'family P gained non-preemptive defeat functions (!np, !nv) declared after the preemptive one and called in the try body',
+    'C01-A7-2': 'C01 family S gained byte atoms indexing an element of a const string array with computed, call-free indices',
+    'C01-A7-3': 'C01 family S gained `r[0] += bumpr(r)` and `GR[1] -= touchg()` (right-hand side modifies the element)',
+    'C02-A8-1': 'family Q gained computed right operands `(x * 2)`, `(g - 2)`',
+    'C02-A9-1': 'family T gained the atom `writeln(0 - x - 1)` / non-negative int writes inside undone tries',
+    'C18-A9-3': 'C18 gained the bigstack items: two programs at the 13 largest legal stack sizes, and a stack one word too large must be refused',
+    'C04-A10-1': 'C04 family M gained `litvla` (literal array live while a dynamic one is allocated); the runner now confirms history-dependent violations by re-running the work item in a fresh interpreter',
+    'C01-A10-3': 'C01 family F gained const/mutable overloads (which/view/pass) called with local, global, const, dynamic and literal arrays',
+    'C04-A11-1': 'C04 family M gained `deepvla` (a deeper call before the dynamic allocation)',
+    'C08-A11-2': 'C08 family X gained `tailcall`/`tailcall2`: return of a call whose arguments read local arrays',
+    'C14-A12-1': 'C14 gained the `cli` item (constant forms compiled through `python -m hidc -m<bits>` and executed); C10 gained driver/library byte parity',
+    'C13-A12-3': 'C13 gained the `file` item (raw control and non-ASCII characters in literals of a source file compiled by the driver); C12 gained from_file comparison',
 }
 
 
@@ -123,7 +178,7 @@ def table():
     for f in sorted(glob.glob(os.path.join(ROOT, 'seeded', '*', 'meta.json'))):
         m = json.load(open(f))
         d = DESCR.get(m['id'], ('', ''))
-        if 'summary' not in m and d[0]:
+        if d[0] and ((m.get('round') or 0) >= 3 or 'summary' not in m):
             m['summary'] = d[0]
             m['needs_to_manifest'] = d[1]
             json.dump(m, open(f, 'w'), indent=1)
